@@ -462,7 +462,7 @@ def analyse_function(path, fn, prop, res):
 
 FIXTURE = os.path.join(VERIF, "selftest", "fixtures", "tmp_fix.c")
 FIXTURE_EXPECT = {"fix_tmp_leak": "leak-on-exit", "fix_tmp_uaf": "use-after-free:sp", "fix_tmp_escape": "escape:w",
-                  "fix_tmp_good": None}
+                  "fix_tmp_good": None, "fix_tmp_zero": "zero-size"}
 
 
 def run(prop="C04", tier="quick", modes=None, only=None):
@@ -475,6 +475,7 @@ def run(prop="C04", tier="quick", modes=None, only=None):
         if only and not only(path) and path != FIXTURE:
             continue
         analyse_function(path, fn, prop, res)
+        zero_sized(path, fn, prop, res)
     # positive / negative fixtures must behave exactly as recorded, else the rule itself is broken
     fx = [f for f in res["findings"] if f.file == FIXTURE]
     res["findings"] = [f for f in res["findings"] if f.file != FIXTURE]
@@ -497,7 +498,40 @@ def run(prop="C04", tier="quick", modes=None, only=None):
     return res
 
 
-MODE_KINDS = ("use-after-free", "escape", "return-tmp", "alloc-before-mark", "free-before-mark", "alloc-after-free", "double-free")
+MODE_KINDS = ("use-after-free", "escape", "return-tmp", "alloc-before-mark", "free-before-mark", "alloc-after-free", "double-free",
+              "zero-size")
+
+
+def zero_sized(path, fn, prop, res):
+    """"TMP_ALLOC(0) is not allowed" (gmp-impl.h): harmless with alloca, an abort under --enable-alloca=debug (ASSERT_ALWAYS (size >= 1)) and a
+    zero-byte malloc under malloc-reentrant.  Every TMP allocation - including those in arms that only another build option compiles in,
+    such as the debug arm of TMP_ALLOC_LIMBS_2 - is checked for a size expression that is syntactically able to be zero: a literal 0, a
+    conditional expression with such an arm, a product with such a factor, a sum of such terms."""
+    def zeroable(e):
+        while isinstance(e, dict) and e.get("k") == "cast":
+            e = e["e"]
+        if not isinstance(e, dict):
+            return False
+        k = e.get("k")
+        if k == "int":
+            return e["v"] == 0
+        if k == "cond":
+            return zeroable(e["a"]) or zeroable(e["b"])
+        if k == "binop" and e["op"] == "*":
+            return zeroable(e["l"]) or zeroable(e["r"])
+        if k == "binop" and e["op"] == "+":
+            return zeroable(e["l"]) and zeroable(e["r"])
+        return False
+    for b in fn["blocks"]:                          # all blocks: also the ones Clang's CFG prunes in this configuration
+        for el in b["elems"]:
+            e = el["e"]
+            if e.get("k") == "call" and (e.get("callee") in ALLOC_FNS or e.get("callee") == "__builtin_alloca") and e.get("args"):
+                res["stats"]["tmp_alloc_sites"] += 1
+                if zeroable(e["args"][-1]):
+                    res["findings"].append(Finding(prop, "R-TMP", path, el["line"], fn["name"], "zero-size:%d" % el["line"],
+                                                   "the temporary allocation at line %d can be asked for 0 bytes (its size expression has a "
+                                                   "literal-zero alternative): TMP_ALLOC (0) is not allowed - it aborts under --enable-alloca=debug"
+                                                   % el["line"]))
 
 
 def run_modes(prop="C14", tier="quick"):
